@@ -114,6 +114,69 @@ def build_daemon(ctx):
     return out
 
 
+def run_target_probe(ctx, binp, idx, node_env):
+    """One short run of the built daemon with NODE_NAME set / empty / unset: a few sshd lines of different forms; returns
+    the target of every event written (C06: every event carries this node's name and machine id)."""
+    import socket
+    d = ctx.path("tgt%d" % idx)
+    shutil.rmtree(d, ignore_errors=True)
+    os.makedirs(d)
+    sp, ap, op = os.path.join(d, "sshd-pipe"), os.path.join(d, "audit-pipe"), os.path.join(d, "out.log")
+    os.mkfifo(sp)
+    os.mkfifo(ap)
+    open(op, "w").close()
+    env = dict(os.environ)
+    env.pop("NODE_NAME", None)
+    if node_env is not None:
+        env["NODE_NAME"] = node_env
+    errf = open(os.path.join(d, "stderr.txt"), "w")
+    proc = subprocess.Popen([binp, "--sshd-pipe-path", sp, "--auditd-pipe-path", ap, "--app-events-output", op],
+                            stdout=errf, stderr=errf, env=env, cwd=d)
+    lines = ["4242 Accepted password for bob from 10.0.0.1 port 22 ssh2",
+             "4243 Accepted publickey for bob from 10.0.0.2 port 23 ssh2: ED25519 SHA256:YI+caZKJCNaXgsD0NvRZ2fLaEeF46cEVyadru/SL76o",
+             "4244 Invalid user eve from 10.0.0.3 port 24", "4245 Failed password for root from 10.0.0.4 port 25 ssh2",
+             "4246 Certificate invalid: expired", "4247 ROOT LOGIN REFUSED FROM 10.0.0.5 port 26"]
+    rec = {"k": "target", "id": idx, "vec": idx, "conc": 0, "env": "unset" if node_env is None else ("empty" if node_env == "" else "set"),
+           "wanthost": node_env or socket.gethostname(), "wantmid": open("/etc/machine-id").read().strip(),
+           "hosts": [], "mids": [], "events": 0, "sent": len(lines)}
+    sw = aw = None
+    try:
+        sw, aw = open_writer(sp, 10), open_writer(ap, 10)
+        if sw is None or aw is None:
+            rec["events"] = -1
+            return rec
+        os.set_blocking(sw, True)
+        os.write(sw, ("\n".join(lines) + "\n").encode())
+        dl = time.time() + 5
+        while time.time() < dl and open(op).read().count("\n") < len(lines):
+            time.sleep(0.05)
+        for l in open(op).read().splitlines():
+            try:
+                e = json.loads(l)
+            except ValueError:
+                continue
+            rec["events"] += 1
+            rec["hosts"].append((e.get("target") or {}).get("host", "<none>"))
+            rec["mids"].append((e.get("target") or {}).get("machine-id", "<none>"))
+    finally:
+        for fd in (sw, aw):
+            if fd is not None:
+                try:
+                    os.close(fd)
+                except OSError:
+                    pass
+        if proc.poll() is None:
+            proc.send_signal(signal.SIGTERM)
+            try:
+                proc.wait(timeout=5)
+            except subprocess.TimeoutExpired:
+                proc.kill()
+                proc.wait()
+        errf.close()
+        shutil.rmtree(d, ignore_errors=True)
+    return rec
+
+
 def audit_line(i):
     return ("type=USER_START msg=audit(1668460768.%03d:%d): pid=25007 uid=0 auid=1000 ses=499 "
             "msg='op=PAM:session_open grantors=pam_unix acct=\"someuser\" exe=\"/usr/sbin/sshd\" hostname=127.0.0.1 "
